@@ -534,6 +534,10 @@ def main():
     harnesses = [h for h in spec.HARNESSES if args.tier in h["tiers"]]
     if args.only:
         harnesses = [h for h in harnesses if args.only in h["name"]]
+    if not harnesses:
+        print(f"UNDECIDED property={pid} no harness selected (tier={args.tier}, only={args.only}): nothing was checked")
+        shutil.rmtree(work, ignore_errors=True)
+        return 2
     results = []
     try:
         # heaviest first so that the tail of the schedule is short
